@@ -240,13 +240,6 @@ theorem endsInName_decompose {p : Path} (h : endsInName p = true) : ∃ q a, p =
     exact ⟨t.reverse, a, by simpa using congrArg List.reverse heq⟩
   · simp at h
 
-theorem HA_decompose {p : Path} (h : HA p = true) : ∃ q b a, p = q ++ [.normal b, .normal a] := by
-  unfold HA at h
-  split at h
-  · rename_i a b t heq
-    exact ⟨t.reverse, b, a, by simpa using congrArg List.reverse heq⟩
-  · simp at h
-
 theorem hasRoot_of_relative {req : Path} (h : isRequireRelative req = true) : hasRoot req = false := by
   cases req with
   | nil => rfl
@@ -263,43 +256,57 @@ theorem luau_head_relative (m : LuauMode) (proj req source : Path) (cwd : List N
   simp only [push, hasRoot_of_relative hrel, Bool.false_eq_true, if_false, resolve_reparse,
     resolve_append, resolve_relParent_of_name]
 
-/-- Full statement (the property's luau clause): from a module-folder file, `./`/`../`
-requires start at the *parent* of the file's directory. -/
-def luau_head_module_full : Prop :=
-  ∀ (m : LuauMode) (proj req source : Path) (cwd : List Name),
-    isRequireRelative req = true → isModuleFolderName initName source = true →
-    endsInName source = true →
-    ∃ h, luauHead m proj req source = .ok h ∧
-      resolve cwd h = resolve (resolve cwd source).tail.tail req
+theorem resolve_parentDirectory (cwd : List Name) (d : Path) :
+    resolve cwd (parentDirectory d) = (resolve cwd d).tail := by
+  rcases List.eq_nil_or_concat d with rfl | ⟨q, c, rfl⟩
+  · simp [parentDirectory, push, hasRoot, reparse, resolve, resolveStep, dropCur]
+  · rw [List.concat_eq_append]
+    cases c with
+    | normal a =>
+      have : parentDirectory (q ++ [.normal a]) = relParent (q ++ [.normal a]) := by
+        simp [parentDirectory]
+      rw [this, resolve_relParent_of_name]
+    | root => simp [parentDirectory, resolve_snoc, resolveStep]
+    | cur =>
+      have : parentDirectory (q ++ [.cur]) = push (q ++ [.cur]) [.parent] := by simp [parentDirectory]
+      rw [this]
+      have hr : hasRoot [Comp.parent] = false := rfl
+      simp only [push, hr, Bool.false_eq_true, if_false]
+      rw [resolve_reparse]
+      simp [resolve, List.foldl_append, resolveStep]
+    | parent =>
+      have : parentDirectory (q ++ [.parent]) = push (q ++ [.parent]) [.parent] := by simp [parentDirectory]
+      rw [this]
+      have hr : hasRoot [Comp.parent] = false := rfl
+      simp only [push, hr, Bool.false_eq_true, if_false]
+      rw [resolve_reparse]
+      simp [resolve, List.foldl_append, resolveStep]
 
-/-- False (F25): from `init.luau` named without a directory, `./x` starts at the working
-directory itself (`get_relative_parent_path(".")` is `.`), not at its parent. -/
-theorem luau_head_module_full_false : ¬ luau_head_module_full := by
-  intro h
-  obtain ⟨h', h1, h2⟩ := h ⟨[], none⟩ [.cur] [.cur, .normal ['x']]
-    [.normal ['i', 'n', 'i', 't', '.', 'l', 'u', 'a', 'u']] [['w'], ['c']] (by decide) (by decide) (by decide)
-  have e : h' = [.cur, .normal ['x']] := by
-    have : luauHead ⟨[], none⟩ [.cur] [.cur, .normal ['x']]
-        [.normal ['i', 'n', 'i', 't', '.', 'l', 'u', 'a', 'u']] = .ok [.cur, .normal ['x']] := by rfl
-    rw [this] at h1
-    cases h1; rfl
-  subst e
-  revert h2; decide
+theorem endsInName_of_module {folder : Name} {p : Path} (h : isModuleFolderName folder p = true) :
+    endsInName p = true := by
+  unfold isModuleFolderName fileName at h
+  unfold endsInName
+  rw [List.getLast?_eq_head?_reverse] at h
+  cases hr : p.reverse with
+  | nil => simp [hr] at h
+  | cons c t => cases c <;> simp_all
 
-theorem luau_head_module_partial (m : LuauMode) (proj req source : Path) (cwd : List Name)
-    (hrel : isRequireRelative req = true) (hmod : isModuleFolderName initName source = true)
-    (hA : HA source = true) :
+/-- The property's luau clause in full: from a module-folder file, `./`/`../` requires are
+walked from the *parent* of the file's directory — wherever the file is (it was false before
+the fix of F25 for `init.luau`, `../init.luau`, `/init.luau`, whose directory has no name). -/
+theorem luau_head_module (m : LuauMode) (proj req source : Path) (cwd : List Name)
+    (hrel : isRequireRelative req = true) (hmod : isModuleFolderName initName source = true) :
     ∃ h, luauHead m proj req source = .ok h ∧
       resolve cwd h = resolve (resolve cwd source).tail.tail req := by
-  obtain ⟨q, b, a, rfl⟩ := HA_decompose hA
-  refine ⟨push (relParent (relParent (q ++ [.normal b, .normal a]))) req, by simp [luauHead, hrel, hmod], ?_⟩
-  have e1 : q ++ [.normal b, .normal a] = (q ++ [.normal b]) ++ [.normal a] := by simp
-  have hp : relParent ((q ++ [.normal b]) ++ [.normal a]) = q ++ [.normal b] := by
-    rw [relParent_snoc_name]; simp
+  obtain ⟨q, a, rfl⟩ := endsInName_decompose (endsInName_of_module hmod)
+  refine ⟨push (parentDirectory (relParent (q ++ [.normal a]))) req, by simp [luauHead, hrel, hmod], ?_⟩
   simp only [push, hasRoot_of_relative hrel, Bool.false_eq_true, if_false, resolve_reparse,
-    resolve_append]
-  rw [e1, hp, resolve_relParent_of_name]
-  simp [resolve, List.foldl_append, resolveStep]
+    resolve_append, resolve_parentDirectory, resolve_relParent_of_name]
+
+/-- regression (former F25 witness): from `init.luau`, `./x` is walked from `..` -/
+example : (luauHead ⟨[], none⟩ [.cur] [.cur, .normal ['x']]
+      [.normal ['i', 'n', 'i', 't', '.', 'l', 'u', 'a', 'u']]).toOption.map (normalize true) =
+    some [.parent, .normal ['x']] := by decide
 
 /-- `@self/…` starts at the requiring file's own directory -/
 theorem luau_head_self (m : LuauMode) (proj rest source : Path) (cwd : List Name)
@@ -313,7 +320,6 @@ theorem luau_head_self (m : LuauMode) (proj rest source : Path) (cwd : List Name
 
 example : isRequireRelative [.cur, .normal ['x']] = true ∧
     isModuleFolderName initName [.normal ['s'], .normal ['i', 'n', 'i', 't', '.', 'l', 'u', 'a']] = true ∧
-    HA [.normal ['s'], .normal ['i', 'n', 'i', 't', '.', 'l', 'u', 'a']] = true ∧
     isModuleFolderName initName [.normal ['m', '.', 'l', 'u', 'a']] = false ∧
     endsInName [.normal ['m', '.', 'l', 'u', 'a']] = true := by decide
 
@@ -383,6 +389,247 @@ theorem normalize_keeps_root (k : Bool) (p : Path) (hroot : hasRoot p = true) :
 example : hasRoot [.root, .parent, .parent, .normal ['b']] = true ∧
     normalize true [.root, .parent, .parent, .normal ['b']] = [.root, .normal ['b']] := by
   decide
+
+/-! ## The literal of a require call is normalised without changing what it means -/
+
+theorem last_rel_step (st : List Comp) (c : Comp)
+    (hl : st.getLast? = some .cur ∨ st.getLast? = some .parent) :
+    (normStep true st c).getLast? = some .cur ∨ (normStep true st c).getLast? = some .parent := by
+  cases st with
+  | nil => simp at hl
+  | cons a t =>
+    cases c with
+    | root => simpa [normStep, List.getLast?_cons_cons] using hl
+    | normal s => simpa [normStep, List.getLast?_cons_cons] using hl
+    | cur => simpa [normStep] using hl
+    | parent =>
+      cases t with
+      | nil => cases a <;> simp_all [normStep]
+      | cons b u => cases a <;> simp_all [normStep, List.getLast?_cons_cons]
+
+theorem last_rel_foldl (p : Path) : ∀ st,
+    (st.getLast? = some .cur ∨ st.getLast? = some .parent) →
+    ((p.foldl (normStep true) st).getLast? = some .cur ∨
+      (p.foldl (normStep true) st).getLast? = some .parent) := by
+  induction p with
+  | nil => intro st hl; simpa using hl
+  | cons c cs ih => intro st hl; exact ih _ (last_rel_step st c hl)
+
+/-- a `./` or `../` literal is still one after normalisation -/
+theorem normalize_relative (p : Path) (h : isRequireRelative p = true) :
+    isRequireRelative (normalize true p) = true := by
+  cases p with
+  | nil => simp [isRequireRelative] at h
+  | cons c cs =>
+    have h0 : (normStep true [] c).getLast? = some .cur ∨ (normStep true [] c).getLast? = some .parent := by
+      cases c <;> simp_all [isRequireRelative, normStep]
+    have hl := last_rel_foldl cs _ h0
+    unfold normalize
+    simp only [List.cons_ne_nil, if_false, List.foldl_cons]
+    by_cases hst : cs.foldl (normStep true) (normStep true [] c) = []
+    · simp [hst, isRequireRelative]
+    · simp only [hst, if_false, isRequireRelative, List.head?_reverse]
+      rcases hl with hl | hl <;> simp [hl]
+
+/-- joining and then walking = walking the base, then the joined path (a rooted `q` resets both) -/
+theorem resolve_push (loc : List Name) (base q : Path) :
+    resolve loc (push base q) = resolve (resolve loc base) q := by
+  cases q with
+  | nil =>
+    have : resolve (resolve loc base) [] = resolve loc base := rfl
+    simp [push, hasRoot, resolve_reparse, this]
+  | cons c t =>
+    cases c with
+    | root => simp [push, hasRoot, resolve, resolveStep]
+    | cur => simp [push, hasRoot, resolve_reparse, resolve_append]
+    | parent => simp [push, hasRoot, resolve_reparse, resolve_append]
+    | normal s => simp [push, hasRoot, resolve_reparse, resolve_append]
+
+theorem root_mem_normStep (k : Bool) (st : List Comp) (c : Comp)
+    (h : Comp.root ∈ normStep k st c) : Comp.root ∈ st ∨ c = .root := by
+  cases c with
+  | root => exact Or.inr rfl
+  | normal s => left; simpa [normStep] using h
+  | cur =>
+    left
+    cases st with
+    | nil => cases k <;> simp [normStep] at h
+    | cons a t => simpa [normStep] using h
+  | parent =>
+    left
+    cases st with
+    | nil => simp [normStep] at h
+    | cons a t => cases a <;> simp_all [normStep]
+
+theorem root_mem_foldl (k : Bool) (p : Path) : ∀ st,
+    Comp.root ∈ p.foldl (normStep k) st → Comp.root ∈ st ∨ Comp.root ∈ p := by
+  induction p with
+  | nil => intro st h; exact Or.inl (by simpa using h)
+  | cons c cs ih =>
+    intro st h
+    rcases ih _ (by simpa using h) with h1 | h1
+    · rcases root_mem_normStep k st c h1 with h2 | h2
+      · exact Or.inl h2
+      · exact Or.inr (by simp [h2])
+    · exact Or.inr (by simp [h1])
+
+/-- normalisation does not invent a root -/
+theorem root_mem_normalize (k : Bool) (p : Path) (h : Comp.root ∈ normalize k p) : Comp.root ∈ p := by
+  unfold normalize at h
+  by_cases hp : p = []
+  · simp [hp] at h
+  · simp only [hp, if_false] at h
+    by_cases hst : p.foldl (normStep k) [] = []
+    · simp [hst] at h
+    · simp only [hst, if_false, List.mem_reverse] at h
+      rcases root_mem_foldl k p [] h with h1 | h1
+      · simp at h1
+      · exact h1
+
+/-- What `match_path_require_call` makes of a source-prefixed literal: the source name stays
+first, and what follows leads where the written tail leads. -/
+theorem matchCall_normal (n : Name) (rest : Path) (hwf : Comp.root ∉ rest) :
+    ∃ t', matchPathRequireCall (.normal n :: rest) = .normal n :: t' ∧ hasRoot t' = false ∧
+      ∀ X, resolve X t' = resolve X rest := by
+  have hlex := fun X => normalize_lexical false X rest
+  by_cases ht : normalize false rest = [] ∨ normalize false rest = [.cur]
+  · refine ⟨[], by simp [matchPathRequireCall, ht], rfl, ?_⟩
+    intro X
+    have := hlex X
+    rcases ht with ht | ht <;> rw [ht] at this <;> simpa [resolve, resolveStep] using this
+  · have hnr : Comp.root ∉ normalize false rest := fun h => hwf (root_mem_normalize false rest h)
+    have hroot : hasRoot (normalize false rest) = false := by
+      cases hn : normalize false rest with
+      | nil => rfl
+      | cons c t =>
+        cases c with
+        | root => rw [hn] at hnr; simp at hnr
+        | cur => rfl
+        | parent => rfl
+        | normal s => rfl
+    refine ⟨dropCur (normalize false rest), ?_, ?_, ?_⟩
+    · simp [matchPathRequireCall, ht, push, hroot, reparse]
+    · cases hd : dropCur (normalize false rest) with
+      | nil => rfl
+      | cons c t =>
+        cases c with
+        | root =>
+          have : Comp.root ∈ dropCur (normalize false rest) := by rw [hd]; simp
+          simp only [dropCur, List.mem_filter] at this
+          exact absurd this.1 hnr
+        | cur => rfl
+        | parent => rfl
+        | normal s => rfl
+    · intro X; rw [resolve_dropCur]; exact hlex X
+
+def denote (cwd : List Name) : Except FindErr Path → Except FindErr (List Name)
+  | .ok p => .ok (resolve cwd p)
+  | .error e => .error e
+
+theorem pathHead_relative_eq (m : PathMode) (proj r source : Path) (h : isRequireRelative r = true) :
+    pathHead m proj r source = .ok (push (pop source) r) := by
+  simp [pathHead, h]
+
+theorem pathHead_root_eq (m : PathMode) (proj r source : Path) (h : isRequireRelative r = false)
+    (hk : hasRoot r = true) : pathHead m proj r source = .ok r := by
+  simp [pathHead, h, hk]
+
+theorem luauHead_relative_eq (m : LuauMode) (proj r source : Path) (h : isRequireRelative r = true) :
+    luauHead m proj r source =
+      .ok (push (if isModuleFolderName initName source then parentDirectory (relParent source)
+        else relParent source) r) := by
+  by_cases hm : isModuleFolderName initName source = true <;> simp [luauHead, h, hm]
+
+theorem luauHead_root_eq (m : LuauMode) (proj r source : Path) (h : isRequireRelative r = false)
+    (hk : hasRoot r = true) : luauHead m proj r source = .ok r := by
+  simp [luauHead, h, hk]
+
+theorem not_relative_of_root {r : Path} (hk : hasRoot r = true) : isRequireRelative r = false := by
+  cases r with
+  | nil => rfl
+  | cons c t => cases c <;> simp_all [hasRoot, isRequireRelative]
+
+/-- Path mode: normalising the literal of a require call first (as every rule does) never
+changes where the head of the resolution leads, nor the error — in particular `pkg/../m` keeps
+its source name (this was false before the fix of F30). `hwf`: as in every parsed path, a root
+can only be the first component. -/
+theorem path_head_matchCall (m : PathMode) (proj lit source : Path) (cwd : List Name)
+    (hwf : Comp.root ∉ lit.tail) :
+    denote cwd (pathHead m proj (matchPathRequireCall lit) source) =
+      denote cwd (pathHead m proj lit source) := by
+  cases lit with
+  | nil => simp [matchPathRequireCall, normalize]
+  | cons c rest =>
+    cases c with
+    | normal n =>
+      obtain ⟨t', h1, h2, h3⟩ := matchCall_normal n rest (by simpa using hwf)
+      rw [h1]
+      simp only [pathHead, isRequireRelative, hasRoot, List.head?_cons, compStr]
+      cases getSourcePath m n proj with
+      | none => simp [denote]
+      | some loc => simp [denote, resolve_push, h3]
+    | root =>
+      have hk := normalize_keeps_root true (.root :: rest) rfl
+      have e : matchPathRequireCall (.root :: rest) = normalize true (.root :: rest) := rfl
+      rw [e, pathHead_root_eq _ _ _ _ (not_relative_of_root hk) hk,
+        pathHead_root_eq _ _ _ _ (not_relative_of_root rfl) rfl]
+      simp [denote, normalize_lexical]
+    | cur =>
+      have e : matchPathRequireCall (.cur :: rest) = normalize true (.cur :: rest) := rfl
+      rw [e, pathHead_relative_eq _ _ _ _ (normalize_relative (.cur :: rest) rfl),
+        pathHead_relative_eq _ _ _ _ rfl]
+      simp [denote, resolve_push, normalize_lexical]
+    | parent =>
+      have e : matchPathRequireCall (.parent :: rest) = normalize true (.parent :: rest) := rfl
+      rw [e, pathHead_relative_eq _ _ _ _ (normalize_relative (.parent :: rest) rfl),
+        pathHead_relative_eq _ _ _ _ rfl]
+      simp [denote, resolve_push, normalize_lexical]
+
+/-- Luau mode: the same. -/
+theorem luau_head_matchCall (m : LuauMode) (proj lit source : Path) (cwd : List Name)
+    (hwf : Comp.root ∉ lit.tail) :
+    denote cwd (luauHead m proj (matchPathRequireCall lit) source) =
+      denote cwd (luauHead m proj lit source) := by
+  cases lit with
+  | nil => simp [matchPathRequireCall, normalize]
+  | cons c rest =>
+    cases c with
+    | normal n =>
+      obtain ⟨t', h1, h2, h3⟩ := matchCall_normal n rest (by simpa using hwf)
+      rw [h1]
+      simp only [luauHead, isRequireRelative, hasRoot, List.head?_cons, compStr]
+      by_cases hs : n = selfName
+      · simp [hs, denote, resolve_push, h3]
+      · by_cases ha : n.head? = some '@'
+        · simp only [hs, ha, if_true, if_false]
+          cases getSourceLuau m n proj with
+          | none => simp [denote]
+          | some loc => simp [denote, resolve_push, h3]
+        · have := h3 (n :: cwd)
+          simp [hs, ha, denote]
+          simpa [resolve, resolveStep] using this
+    | root =>
+      have hk := normalize_keeps_root true (.root :: rest) rfl
+      have e : matchPathRequireCall (.root :: rest) = normalize true (.root :: rest) := rfl
+      rw [e, luauHead_root_eq _ _ _ _ (not_relative_of_root hk) hk,
+        luauHead_root_eq _ _ _ _ (not_relative_of_root rfl) rfl]
+      simp [denote, normalize_lexical]
+    | cur =>
+      have e : matchPathRequireCall (.cur :: rest) = normalize true (.cur :: rest) := rfl
+      rw [e, luauHead_relative_eq _ _ _ _ (normalize_relative (.cur :: rest) rfl),
+        luauHead_relative_eq _ _ _ _ rfl]
+      simp [denote, resolve_push, normalize_lexical]
+    | parent =>
+      have e : matchPathRequireCall (.parent :: rest) = normalize true (.parent :: rest) := rfl
+      rw [e, luauHead_relative_eq _ _ _ _ (normalize_relative (.parent :: rest) rfl),
+        luauHead_relative_eq _ _ _ _ rfl]
+      simp [denote, resolve_push, normalize_lexical]
+
+/-- regression (former F30 witness): `pkg/../m` keeps its source name -/
+example : matchPathRequireCall [.normal ['p', 'k', 'g'], .parent, .normal ['m']] =
+    [.normal ['p', 'k', 'g'], .parent, .normal ['m']] ∧
+    matchPathRequireCall [.normal ['p', 'k', 'g'], .normal ['x'], .parent, .cur] = [.normal ['p', 'k', 'g']] ∧
+    Comp.root ∉ [Comp.parent, Comp.normal ['m']] := by decide
 
 /-! ## convert_require keeps the target -/
 
